@@ -22,6 +22,8 @@ pub enum Profile {
     Lateread,
     Aging,
     Monoburst,
+    Dangling,
+    Overfill,
 }
 
 pub const PROFILES: [Profile; 8] = [
@@ -54,6 +56,8 @@ impl Profile {
             "lateread" => Self::Lateread,
             "aging" => Self::Aging,
             "monoburst" => Self::Monoburst,
+            "dangling" => Self::Dangling,
+            "overfill" => Self::Overfill,
             _ => return None,
         })
     }
@@ -75,6 +79,8 @@ impl Profile {
             Self::Lateread => "lateread",
             Self::Aging => "aging",
             Self::Monoburst => "monoburst",
+            Self::Dangling => "dangling",
+            Self::Overfill => "overfill",
         }
     }
 }
@@ -122,6 +128,8 @@ pub fn gen_cfg(rng: &mut Rng, kind: &'static str, profile: Profile, capmode: &st
         Profile::Oversize => Some(rng.pick(&[1u64, 2, 3, 5, 8, 10])),
         Profile::Growexp => Some(rng.pick(&[6u64, 8, 10, 12, 16])),
         Profile::Aging => Some(rng.pick(&[10u64, 20, 30])),
+        Profile::Dangling => Some(rng.pick(&[3u64, 4, 5, 6])),
+        Profile::Overfill => Some(rng.pick(&[6u64, 8, 10, 12])),
         _ => match rng.below(12) {
             0 => None,
             1 => Some(0),
@@ -137,13 +145,14 @@ pub fn gen_cfg(rng: &mut Rng, kind: &'static str, profile: Profile, capmode: &st
     };
     let c = cap.unwrap_or(8);
     let weigher = match profile {
-        Profile::Oversize | Profile::Regrow | Profile::Growexp => WeigherKind::Val,
+        Profile::Oversize | Profile::Regrow | Profile::Growexp | Profile::Overfill => WeigherKind::Val,
         Profile::Growth => rng.pick(&[
             WeigherKind::VMod(4),
             WeigherKind::VMod(c + 2),
             WeigherKind::Val,
         ]),
         Profile::Big => WeigherKind::None,
+        Profile::Dangling => rng.pick(&[WeigherKind::None, WeigherKind::None, WeigherKind::Const(1)]),
         Profile::Aging => rng.pick(&[WeigherKind::Const(2), WeigherKind::None, WeigherKind::Const(2)]),
         Profile::Batch => {
             if rng.chance(1, 3) { WeigherKind::Val } else { WeigherKind::None }
@@ -173,7 +182,7 @@ pub fn gen_cfg(rng: &mut Rng, kind: &'static str, profile: Profile, capmode: &st
             2 => (Some(SEC), Some(3 * SEC)),
             _ => (Some(3 * SEC), Some(SEC)),
         },
-        Profile::Regrow | Profile::Aging => (None, None),
+        Profile::Regrow | Profile::Aging | Profile::Dangling | Profile::Overfill => (None, None),
         Profile::Lateread => match rng.below(3) {
             0 => (None, Some(rng.pick(&[SEC, 3 * SEC]))),
             1 => (Some(10 * SEC), Some(rng.pick(&[SEC, 3 * SEC]))),
@@ -208,6 +217,7 @@ pub fn gen_cfg(rng: &mut Rng, kind: &'static str, profile: Profile, capmode: &st
         6 => HashKind::Mod2,
         _ => HashKind::Top,
     };
+    let hash = if profile == Profile::Dangling && hash != HashKind::Mix { HashKind::Id } else { hash };
     GenCfg { kind, cap, weigher, ttl, tti, hash, initcap: None }
 }
 
@@ -482,6 +492,125 @@ pub fn gen_case(seed: u64, kind: &'static str, profile: Profile, len: usize, whi
                 out.push(format!("adv {}", rng.pick(&[tti / 2, tti])));
                 push(&mut out, format!("get {}", k));
             }
+        }
+        if sync {
+            out.push("sync".into());
+            out.push("snap".into());
+        }
+        out.push("iter".into());
+        out.push("drop".into());
+        return out;
+    }
+    if profile == Profile::Dangling {
+        // A contested admission that meets a node whose entry is no longer the map's: a full cache
+        // with the sketch on, residents of graded popularity (the LRU one the most popular), a
+        // newcomer looked up a few times, and - after the newcomer's insert, before the maintenance
+        // that decides on it - the LRU resident(s) invalidated or overwritten. The victim scan then
+        // walks over nodes it has to skip (invalidated: the Remove is still queued; overwritten: the
+        // entry is dirty), and neither their weight nor their popularity may count.
+        let c = cfg.cap.unwrap_or(4);
+        let rounds = 2 + len / 16;
+        let mut base = 0u64;
+        for _ in 0..rounds {
+            out.push("invall".into());
+            out.push("adv 1000".into());
+            if sync { out.push("sync".into()); }
+            let ks: Vec<u64> = (0..c).map(|i| base + i).collect();
+            let newcomer = base + c;
+            base += c + 1;
+            // fill; the first insert's maintenance turns the sketch on
+            for &k in &ks {
+                if white_box { out.push(format!("freq {}", k)); }
+                push(&mut out, format!("ins {} {}", k, 1 + rng.below(3)));
+                if sync { out.push("sync".into()); }
+            }
+            // graded popularity: the LRU resident is read most (reads would reorder: read in LRU
+            // order, so that the order is preserved)
+            let top = 2 + rng.below(3);
+            let graded = rng.chance(2, 3);
+            for (i, &k) in ks.iter().enumerate() {
+                // every resident is read at least once two times out of three: the order then stays
+                // the insertion order and the most popular resident is the LRU one
+                let n = if i == 0 { top } else if graded { 1 } else { rng.below(2) };
+                for _ in 0..n { push(&mut out, format!("get {}", k)); }
+            }
+            if sync { push(&mut out, "sync".into()); }
+            let nl = if graded { 2 + rng.below(top - 1) } else { 1 + rng.below(top + 1) };
+            for _ in 0..nl { push(&mut out, format!("get {}", newcomer)); }
+            if sync { push(&mut out, "sync".into()); }
+            if rng.chance(1, 2) { out.push("adv 600000000".into()); }   // leave the housekeeping window
+            if white_box { out.push(format!("freq {}", newcomer)); }
+            push(&mut out, format!("ins {} 1", newcomer));
+            let nd = 1 + rng.below(2.min(c as u64 - 1));
+            for i in 0..nd {
+                let k = ks[i as usize];
+                match rng.below(4) {
+                    0 | 1 => push(&mut out, format!("inv {}", k)),
+                    2 => {
+                        if white_box { out.push(format!("freq {}", k)); }
+                        push(&mut out, format!("ins {} {}", k, 5 + rng.below(3)))
+                    }
+                    _ => {
+                        push(&mut out, format!("inv {}", k));
+                        if white_box { out.push(format!("freq {}", k)); }
+                        push(&mut out, format!("ins {} 9", k))
+                    }
+                }
+            }
+            if sync { push(&mut out, "sync".into()); }
+            for &k in &ks { push(&mut out, format!("has {}", k)); }
+            push(&mut out, format!("has {}", newcomer));
+            push(&mut out, "iter".into());
+        }
+        if sync {
+            out.push("sync".into());
+            out.push("snap".into());
+        }
+        out.push("iter".into());
+        out.push("drop".into());
+        return out;
+    }
+    if profile == Profile::Overfill {
+        // A key written twice with different weights before its first write has been applied
+        // (inside or outside the housekeeping window, the two ops applied by one run or by two),
+        // then the cache is filled with fresh unit-weight keys exactly up to the room the real
+        // residents leave: every one of them fits (C03 part B), the counters must say what the
+        // map holds (C10), nothing may be over capacity afterwards (C04).
+        let c = cfg.cap.unwrap_or(8);
+        let rounds = 2 + len / 16;
+        let mut base = 0u64;
+        for _ in 0..rounds {
+            out.push("invall".into());
+            out.push("adv 1000".into());
+            if sync { out.push("sync".into()); }
+            let k = base;
+            base += 1;
+            let heavy = c / 2 + rng.below(c / 2);
+            let light = 1 + rng.below(2);
+            let (first, second) = if rng.chance(2, 3) { (heavy, light) } else { (light, heavy) };
+            if rng.chance(1, 2) { out.push("adv 600000000".into()); }
+            if white_box { out.push(format!("freq {}", k)); }
+            push(&mut out, format!("ins {} {}", k, first));
+            if rng.chance(1, 4) { out.push("adv 600000000".into()); }
+            if white_box { out.push(format!("freq {}", k)); }
+            push(&mut out, format!("ins {} {}", k, second));
+            if rng.chance(1, 3) {
+                if white_box { out.push(format!("freq {}", k)); }
+                push(&mut out, format!("ins {} {}", k, second));
+            }
+            if sync && rng.chance(2, 3) { push(&mut out, "sync".into()); }
+            let room = c - second;
+            let every = rng.chance(1, 2);
+            for _ in 0..room {
+                let f = base;
+                base += 1;
+                if white_box { out.push(format!("freq {}", f)); }
+                push(&mut out, format!("ins {} 1", f));
+                if sync && every { push(&mut out, "sync".into()); }
+            }
+            if sync { push(&mut out, "sync".into()); }
+            push(&mut out, format!("has {}", k));
+            push(&mut out, "iter".into());
         }
         if sync {
             out.push("sync".into());
@@ -796,7 +925,7 @@ pub fn gen_case(seed: u64, kind: &'static str, profile: Profile, len: usize, whi
                 Profile::Churn => (38, 14, 4, 2, 24, 3, 3, 6, 6),
                 Profile::Growth => (50, 18, 4, 3, 6, 1, 2, 8, 8),
                 Profile::Scan => (40, 45, 2, 1, 3, 0, 0, 6, 3),
-                Profile::Big | Profile::Batch | Profile::Oversize | Profile::Regrow | Profile::Growexp | Profile::Expnext | Profile::Lateread | Profile::Aging | Profile::Monoburst => (55, 20, 2, 1, 8, 1, 1, 2, 10),
+                Profile::Big | Profile::Batch | Profile::Oversize | Profile::Regrow | Profile::Growexp | Profile::Expnext | Profile::Lateread | Profile::Aging | Profile::Monoburst | Profile::Dangling | Profile::Overfill => (55, 20, 2, 1, 8, 1, 1, 2, 10),
             };
         let mut acc = 0;
         let mut pick = |p: u64| { acc += p; r < acc };
